@@ -138,10 +138,13 @@ one (int pi, int ci, int ni, int fill, int do_hash)
   int m = pref_method[pi];
   unsigned long count = counts[m][ci].c;
   int nrb = nrb_list[ni];
-  unsigned char rb[257];
+  unsigned char rb[257], rb2[257];
   char sig[160];
   for (int i = 0; i < 257; i++)
     rb[i] = fill == 0 ? vh_fillP ((size_t) i) : fill == 1 ? 0 : 0xff;
+  /* same random bytes, different memory after them: the result is a function of the nrbytes bytes only */
+  for (int i = 0; i < 257; i++)
+    rb2[i] = i < nrb ? rb[i] : (unsigned char) ~rb[i];
   snprintf (cj, sizeof cj, "{\"prefix\":%s,\"method\":\"%s\",\"count\":%lu,\"nrbytes\":%d,\"fill\":%d,\"replay\":\"%d:%d:%d:%d:%d\"",
             vh_jstr (pref[pi]), vh_methods[m].name, count, nrb, fill, pi, ci, ni, fill, do_hash);
   char o192[CRYPT_GENSALT_OUTPUT_SIZE + 8], o256[256 + 8], again[CRYPT_GENSALT_OUTPUT_SIZE];
@@ -154,7 +157,7 @@ one (int pi, int ci, int ni, int fill, int do_hash)
       r2 = crypt_gensalt_rn (pref[pi], count, (const char *) rb, nrb, o256, 256);
       r3 = crypt_gensalt_ra (pref[pi], count, (const char *) rb, nrb);
       r0 = crypt_gensalt (pref[pi], count, (const char *) rb, nrb);
-      r1b = crypt_gensalt_rn (pref[pi], count, (const char *) rb, nrb, again, sizeof again);
+      r1b = crypt_gensalt_rn (pref[pi], count, (const char *) rb2, nrb, again, sizeof again);
       VH_END ();
     }
   vh_stat ("evaluations", 5);
@@ -183,7 +186,9 @@ one (int pi, int ci, int ni, int fill, int do_hash)
   if (strcmp (r1, r2) || strcmp (r1, r3) || strcmp (r1, s0) || strcmp (r1, r1b))
     {
       snprintf (sig, sizeof sig, "entry-points-differ/method=%s", vh_methods[m].name);
-      vh_viol (sig, "%s,\"gensalt\":%s,\"rn192\":%s,\"rn256\":%s,\"ra\":%s,\"rn192_again\":%s}", cj, vh_jstr (s0), vh_jstr (r1), vh_jstr (r2),
+      if (!strcmp (r1, r2) && !strcmp (r1, r3) && !strcmp (r1, s0))
+        snprintf (sig, sizeof sig, "depends-on-memory-beyond-nrbytes/method=%s", vh_methods[m].name);
+      vh_viol (sig, "%s,\"gensalt\":%s,\"rn192\":%s,\"rn256\":%s,\"ra\":%s,\"rn192_other_memory_after_rbytes\":%s}", cj, vh_jstr (s0), vh_jstr (r1), vh_jstr (r2),
                vh_jstr (r3), vh_jstr (r1b));
     }
   free (r3);
